@@ -15,14 +15,16 @@ EXTENDS SidecarDecision
 CONSTANTS Starters,      \* names of the processes started by the user
           MarkerSet,     \* markers a starter may carry
           CrashSet, UploadSet,   \* values of Config.ReportCrashes / Config.Upload of a starter
-          ModeSet, TokenSet, LocalSet   \* consent mode, initial token, local directory usable
+          ModeSet, TokenSet, LocalSet,  \* consent mode, initial token, local directory usable
+          MaxFaults      \* how many failing system calls / killed starters a behaviour may contain
 VARIABLES mode, initToken, localOK, cfg,   \* chosen initially, then fixed
           token,         \* the token file now
           local,         \* the local directory: "absent", "present", "unusable"
           wrote,         \* classes of files written so far
           procs,         \* process id (its lineage, a tuple) -> process record
-          ev             \* history of notable events (for race windows only)
-vars == <<mode, initToken, localOK, cfg, token, local, wrote, procs, ev>>
+          ev,            \* history of notable events (for race windows only)
+          nf             \* failing system calls and kills so far
+vars == <<mode, initToken, localOK, cfg, token, local, wrote, procs, ev, nf>>
 
 Entry(m) == CASE m = "unset" -> "p_mode" [] m = "1" -> "c_setenv" [] m = "2" -> "done" [] OTHER -> "fatal"
 
@@ -39,11 +41,12 @@ Init == /\ mode \in ModeSet /\ initToken \in TokenSet /\ localOK \in LocalSet
                       \* a starter that claims to be the sidecar is told to upload iff it is configured to
                       NewProc(cfg[id[1]].marker, "app", cfg[id[1]].crash, cfg[id[1]].upload,
                               cfg[id[1]].marker = "1" /\ cfg[id[1]].upload)]
-        /\ ev = {}
+        /\ ev = {} /\ nf = 0
 
 Ids == DOMAIN procs
 Set(p, f, v) == [procs EXCEPT ![p] = [@ EXCEPT ![f] = v]]
-Fixed == UNCHANGED <<mode, initToken, localOK, cfg>>
+Fixed == UNCHANGED <<mode, initToken, localOK, cfg, nf>>
+FixedButNf == UNCHANGED <<mode, initToken, localOK, cfg>>
 
 (* where a parent goes once the token question is settled *)
 AfterToken(p, acq) == IF procs[p].crash \/ acq THEN "p_spawn" ELSE "done"
@@ -64,10 +67,11 @@ PStatLocal(p) == /\ procs[p].pc = "p_statlocal"
                  /\ UNCHANGED <<token, local, wrote, ev>> /\ Fixed
 (* ---- the token: Stat, Remove if older than 24 h, exclusive create ------- *)
 TStat(p) == /\ procs[p].pc = "t_stat"
-            /\ procs' = [procs EXCEPT ![p] = [@ EXCEPT !.seen = token,
+            \* a ghost (dangling symlink) looks absent to Stat
+            /\ procs' = [procs EXCEPT ![p] = [@ EXCEPT !.seen = IF token = "ghost" THEN "absent" ELSE token,
                                                        !.pc = CASE token = "fresh"  -> AfterToken(p, FALSE)
                                                                 [] token = "stale"  -> "t_remove"
-                                                                [] token = "absent" -> "t_create"]]
+                                                                [] token \in {"absent", "ghost"} -> "t_create"]]
             /\ ev' = ev \cup (IF token = "fresh" /\ initToken # "fresh" THEN {"stat_new"} ELSE {})
             /\ UNCHANGED <<token, local, wrote>> /\ Fixed
 TRemove(p) == /\ procs[p].pc = "t_remove"
@@ -109,8 +113,31 @@ CGo(p) == /\ procs[p].pc = "c_go"
                          ELSE IF q = p THEN [procs[p] EXCEPT !.pc = "done"] ELSE procs[q]]
           /\ UNCHANGED <<token, local, wrote, ev>> /\ Fixed
 
+(* ---- failing system calls and kills (bounded by MaxFaults) ------------- *)
+(* Stat fails with something other than "does not exist": give up           *)
+TStatFail(p) == /\ procs[p].pc = "t_stat" /\ nf < MaxFaults
+                /\ procs' = [procs EXCEPT ![p] = [@ EXCEPT !.seen = "error", !.pc = AfterToken(p, FALSE)]]
+                /\ ev' = ev \cup {"stat_failed"}
+                /\ nf' = nf + 1 /\ UNCHANGED <<token, local, wrote>> /\ FixedButNf
+(* Remove fails: its result is ignored, the exclusive create decides *)
+TRemoveFail(p) == /\ procs[p].pc = "t_remove" /\ nf < MaxFaults
+                  /\ procs' = Set(p, "pc", "t_create")
+                  /\ ev' = ev \cup {"remove_failed"}
+                  /\ nf' = nf + 1 /\ UNCHANGED <<token, local, wrote>> /\ FixedButNf
+(* the create fails for another reason than "exists": not acquired *)
+TCreateFail(p) == /\ procs[p].pc = "t_create" /\ nf < MaxFaults
+                  /\ procs' = Set(p, "pc", AfterToken(p, FALSE))
+                  /\ ev' = ev \cup {"create_failed"}
+                  /\ nf' = nf + 1 /\ UNCHANGED <<token, local, wrote>> /\ FixedButNf
+(* a starter dies anywhere in the token protocol: it is never resumed *)
+Kill(p) == /\ procs[p].pc \in {"t_stat", "t_remove", "t_create"} /\ nf < MaxFaults
+           /\ procs' = Set(p, "pc", "killed")
+           /\ ev' = ev \cup {CASE procs[p].pc = "t_stat" -> "kill_stat" [] procs[p].pc = "t_remove" -> "kill_remove" [] OTHER -> "kill_create"}
+           /\ nf' = nf + 1 /\ UNCHANGED <<token, local, wrote>> /\ FixedButNf
+FaultStep(p) == TStatFail(p) \/ TRemoveFail(p) \/ TCreateFail(p)
+
 TokenStep(p) == TStat(p) \/ TRemove(p) \/ TCreate(p)
-Step(p) == PMode(p) \/ POpen(p) \/ PStatLocal(p) \/ TokenStep(p) \/ PSpawn(p) \/ CSetenv(p) \/ COpen(p) \/ CGo(p)
+Step(p) == FaultStep(p) \/ Kill(p) \/ PMode(p) \/ POpen(p) \/ PStatLocal(p) \/ TokenStep(p) \/ PSpawn(p) \/ CSetenv(p) \/ COpen(p) \/ CGo(p)
 Next == \E p \in Ids : Step(p)
 Spec == Init /\ [][Next]_vars
 FairSpec == Spec /\ \A s \in Starters : WF_vars(\E p \in Ids : p[1] = s /\ Step(p))
@@ -120,12 +147,12 @@ Parent(p) == SubSeq(p, 1, Len(p) - 1)
 Ancestors(p) == {SubSeq(p, 1, k) : k \in 1..(Len(p) - 1)}
 IsSidecar(p) == procs[p].born = "1" /\ Len(p) > 1
 Acquirers == {p \in Ids : procs[p].acq}
-Quiescent == \A p \in Ids : procs[p].pc \in {"done", "fatal"}
+Quiescent == \A p \in Ids : procs[p].pc \in {"done", "fatal", "killed"}
 
 TypeOK == /\ token \in Tokens /\ local \in {"absent", "present", "unusable"} /\ wrote \subseteq {"counters", "token"}
           /\ \A p \in Ids : /\ procs[p].born \in Markers /\ procs[p].marker \in Markers
                             /\ procs[p].pc \in {"p_mode", "p_open", "p_statlocal", "t_stat", "t_remove", "t_create", "p_spawn",
-                                                "c_setenv", "c_open", "c_go", "done", "fatal"}
+                                                "c_setenv", "c_open", "c_go", "done", "fatal", "killed"}
                             /\ Len(p) <= 3
 
 (* a sidecar is only ever launched by an application: neither its parent    *)
@@ -165,7 +192,16 @@ OutcomeOf(s) ==
     acquired  |-> procs[<<s>>].acq,
     wrote     |-> wrote ]
 SequentialAgreesWithTable ==
-  (Cardinality(Starters) = 1 /\ Quiescent) => \A s \in Starters : OutcomeOf(s) = Predicted(RowOf(s))
+  (Cardinality(Starters) = 1 /\ Quiescent /\ nf = 0) => \A s \in Starters : OutcomeOf(s) = Predicted(RowOf(s), DefaultExtras)
+(* with no stale token present, two equal starters together do, in every    *)
+(* interleaving, what two starts in sequence do according to the table       *)
+PairAgreesWithTable ==
+  (Starters = {"s1", "s2"} /\ Quiescent /\ nf = 0 /\ initToken # "stale" /\ cfg["s1"] = cfg["s2"]) =>
+     \A s \in Starters : LET o == [x \in {"sidecars", "uploaders", "nested", "launched"} |->
+                                      OutcomeOf("s1")[x] + OutcomeOf("s2")[x]]
+                               q == Predicted(RowOf(s), [DefaultExtras EXCEPT !.calls = 2])
+                           IN /\ \A x \in DOMAIN o : o[x] = q[x]
+                              /\ (procs[<<"s1">>].acq \/ procs[<<"s2">>].acq) = q.acquired /\ wrote = q.wrote
 
 (* ---- race windows (witness schedules are replayed on the real code) ---- *)
 AtCreateSaw(x) == {p \in Ids : procs[p].pc = "t_create" /\ procs[p].seen = x}
@@ -182,4 +218,13 @@ W_HolderLostToken == Acquirers # {} /\ token = "absent"
 W_TwoSidecars == Cardinality({p \in Ids : IsSidecar(p)}) >= 2
 W_GoUnderSidecar == \E p \in Ids : procs[p].role = "go" /\ Len(p) = 3
 W_StaleLoserAfterWinner == "excl_lost" \in ev /\ initToken = "stale"
+(* windows of the failing-call / kill families: the fault happened and somebody else went on to the create *)
+OthersAtCreate == \E p \in Ids : procs[p].pc = "t_create"
+W_StatFailed == "stat_failed" \in ev /\ OthersAtCreate
+W_RemoveFailed == "remove_failed" \in ev
+W_CreateFailed == "create_failed" \in ev /\ OthersAtCreate
+W_KilledBeforeRemove == "kill_remove" \in ev /\ OthersAtCreate
+W_KilledBeforeCreate == "kill_create" \in ev /\ OthersAtCreate
+W_KilledThenAcquired == (ev \cap {"kill_stat", "kill_remove", "kill_create"}) # {} /\ Acquirers # {}
+W_GhostCreateLost == initToken = "ghost" /\ "excl_lost" \in ev
 =============================================================================
